@@ -272,6 +272,52 @@ def run_case(case, ctx):
             if backend == 'local':
                 h.close()
             strata.add('backend:' + backend)
+    # ---- compound calls through the segyio-style accessors: one subscript = several line / slice / trace reads.  The blocks of the
+    # union box are all that may be fetched; in the default layout lines and z-slices come in groups of four decoded by one fetch, and
+    # consecutive traces share their chunk, so no byte is fetched twice within the subscript either
+    if not sp.is2d and gm is None:
+        import seismic_zfp
+        nI, nX, nZ = sp.shape
+        il, xl = [int(v) for v in sp.ilines()], [int(v) for v in sp.xlines()]
+        default_layout = tuple(sp.bs[:2]) == (4, 4)
+
+        def rng_pair(n):
+            a = rng.randrange(n)
+            return a, rng.randrange(a + 1, min(n, a + 9) + 1)
+        comp = []
+        for _ in range(3):
+            a, b = rng_pair(nI)
+            st = il[1] - il[0] if nI > 1 else 1
+            comp.append(('iline[%d:%d:%d]' % (il[a], il[b - 1] + st, st), lambda f, a=a, b=b, st=st: f.iline[il[a]:il[b - 1] + st:st], ((a, b), (0, nX), (0, nZ))))
+            a, b = rng_pair(nX)
+            st = xl[1] - xl[0] if nX > 1 else 1
+            comp.append(('xline[%d:%d:%d]' % (xl[a], xl[b - 1] + st, st), lambda f, a=a, b=b, st=st: f.xline[xl[a]:xl[b - 1] + st:st], ((0, nI), (a, b), (0, nZ))))
+            a, b = rng_pair(nZ)
+            comp.append(('depth_slice[%d:%d]' % (a, b), lambda f, a=a, b=b: f.depth_slice[a:b], ((0, nI), (0, nX), (a, b))))
+        a, b = rng_pair(nI * nX)
+        tr_boxes = [((t // nX, t // nX + 1), (t % nX, t % nX + 1), (0, nZ)) for t in range(a, b)]
+        for backend in ('local', 'blob'):
+            for label, fn, box in comp + [('trace[%d:%d]' % (a, b), lambda f: f.trace[a:b], None)]:
+                h = monitors.MonFile(path) if backend == 'local' else monitors.FakeBlob(path)
+                f = seismic_zfp.open(h)
+                mark = len(h.log)
+                try:
+                    [np.asarray(v) for v in fn(f)]
+                except Exception:  # noqa  (value / exception correctness is C02's and C13's business)
+                    continue
+                log = h.log[mark:]
+                counters['range_reads'] += len(log)
+                counters['compound_calls'] = counters.get('compound_calls', 0) + 1
+                needed = set()
+                for bx in ([box] if box is not None else tr_boxes):
+                    needed |= sp.blocks_for_box(bx)
+                name = 'emulator.' + label.split('[')[0] + '[slice]'
+                bad += analyse(log, sp, needed, True, name, (label,), check_dup=default_layout)
+                for acc in (f.iline, f.xline, f.depth_slice, f.trace, f.header, f.subvolume, f):
+                    _clear(acc)
+                if backend == 'local':
+                    h.close()
+        strata.add('compound-calls')
     for preload in (False, True):
         for phase in ('open', 'cold'):
             if multisets.get(('local', preload, phase)) != multisets.get(('blob', preload, phase)):
@@ -286,7 +332,7 @@ def run_case(case, ctx):
 def finalize(tier, cases, results, counters, strata):
     reasons = []
     for s in ['layout:default', 'layout:zslice', 'layout:general', 'layout:2d', 'irregular', 'preload',
-              'backend:local', 'backend:blob', 'shared-array-value:zero', 'shared-array-value:nonzero']:
+              'backend:local', 'backend:blob', 'shared-array-value:zero', 'shared-array-value:nonzero', 'compound-calls']:
         if s not in strata:
             reasons.append('required stratum not hit: ' + s)
     if counters.get('range_reads', 0) == 0:
